@@ -59,6 +59,12 @@ def gen_cases(tier):
                     for w in wopts:
                         for lt in (True, False):
                             yield {"cls": "SetCover", "U": U, "V": [sorted(v) for v in V], "weights": w, "log_trick": lt}
+        # SetCover, high multiplicity: one element contained in 4..7 subsets (more slack bits in the counting constraint)
+        for k in (4, 5, 6, 7):
+            for lt in (True, False):
+                yield {"cls": "SetCover", "U": [0], "V": [[0]] * k, "weights": None, "log_trick": lt}
+                if k <= 6:
+                    yield {"cls": "SetCover", "U": [0, 1], "V": [[0]] * (k - 2) + [[0, 1]] * 2, "weights": None, "log_trick": lt}
         # VertexCover
         for nv in (1, 2, 3, 4):
             pairs = [(i, j) for i in range(nv) for j in range(i, nv)]
@@ -478,7 +484,7 @@ def check(case, st):
 
 
 def run(ctx):
-    ctx.bounds = {"SetCover": "|U|<=3, <=3 covering subsets, weights None or patterns over {1,.5,.25} with max 1, log_trick both",
+    ctx.bounds = {"SetCover": "|U|<=3, <=3 covering subsets (plus one element in 4..7 subsets), weights None or patterns over {1,.5,.25} with max 1, log_trick both",
                   "VertexCover": "all edge sets (incl. self-loops) on <=4 vertices" + (" (<=5 edges on 4 vertices)" if ctx.quick else "") + ", int and str labels",
                   "BILP": "N<=2,m<=2 and N=3,m=1 over {-1,0,1,2}" + ("" if ctx.quick else "; N=3,m=2 with c over {-1,1,2}") + ", b = S x0 for every x0",
                   "JobSequencing": "<=3 jobs of length 1..3, 1-3 workers, log_trick both, <=%d formulation variables" % MAXV,
